@@ -6,11 +6,11 @@ ENGINE = 'chartgen+model'
 RULE = ('generated charts on every host (plain, instrumented, queued, active object; spied or not; instrumented or not): immediately '
         'after start_at and after every step state_name must be the name of the reference model\'s rest state, state_fn must be that '
         'state\'s handler or the function it decorates, and on instrumented queued charts current_state() must return the same name. '
-        'Observed only at step boundaries. distinct_nontrivial = distinct (host config, rest-state depth, step kind) tuples')
+        'state_name / state_fn are observed only at step boundaries; current_state() is also asked right after client-side is_in / child_state queries between two steps (the chart took no step, the answer must not change). distinct_nontrivial = distinct (host config, rest-state depth, step kind) tuples')
 CASES = {'quick': 3000, 'thorough': 200000}
-BUDGET = {'quick': 40, 'thorough': 300}
-REQUIRE = {'name_observations': 30000, 'plain_host_runs': 200}
-ASSUME = ['what state_name shows in the middle of a step or right after an is_in query is not asserted']
+BUDGET = {'quick': 150, 'thorough': 300}
+REQUIRE = {'name_observations': 30000, 'plain_host_runs': 200, 'current_state_asked_after_queries': 1000}
+ASSUME = ['what state_name shows in the middle of a step or right after an is_in query is not asserted (current_state() is: it asks the current handler)']
 
 
 def run_case(ctx, n):
